@@ -416,7 +416,8 @@ def strat_itsolve(draw):
     active = sorted(draw(st.permutations(list(range(n))))[:k]) if act != "none" else None
     return {"mat": mat, "method": draw(st.sampled_from(["gs", "gs_sym", "jacobi", "richardson", "half"])),
             "A_kind": draw(st.sampled_from(["dense", "csr", "operator"])),
-            "f": draw(gm.vector(n, 64, 8.0)), "x0": draw(st.sampled_from([None, "zeros", "vec"])), "x0v": draw(gm.vector(n)),
+            "f": [draw(st.sampled_from([-1, 1])) * draw(st.integers(1, 64)) / 8.0 for _ in range(n)],
+            "x0": draw(st.sampled_from([None, "zeros", "vec"])), "x0v": draw(gm.vector(n)),
             "active": active, "active_kind": act,
             "tol": draw(st.sampled_from([0.9, 0.5, 0.1, 1e-2, 1e-4, 1e-8])), "maxiter": draw(st.sampled_from([1, 2, 3, 5, 10, 25]))}
 
@@ -510,7 +511,7 @@ def strat_twogrid(draw):
         nf *= len(kn) - p - 1 + len(new)
     return {"dim": dim, "kvs": kvs, "new": news, "c_mass": draw(st.sampled_from([1.0, 1.0, 10.0, 0.1])),
             "f": [draw(st.integers(-8, 8)) / 4.0 for _ in range(11)],
-            "u0": draw(st.sampled_from(["none", "list", "list_int", "array", "array_int", "array_zero"])),
+            "u0": draw(st.sampled_from(["array", "list", "none", "list_int", "array_int", "array_zero"])),
             "u0v": [draw(st.integers(-4, 4)) for _ in range(7)],
             "storage": draw(st.sampled_from(["csr", "csr", "csc", "dense"])),
             "smoother": draw(st.sampled_from(["gs_forward", "gs_backward", "gs_symmetric", "sequential", "operator", "own"])),
@@ -566,21 +567,30 @@ def check_twogrid(spec, ctx):
     else:
         A, P = scipy.sparse.csc_matrix(Ad), scipy.sparse.csc_matrix(Pd)
     name = spec["smoother"]
+    I_n = np.eye(n)
+    Dg = np.diag(Ad)
+    lowD, upD = np.tril(Ad), np.triu(Ad)
+    S_fw = I_n - np.linalg.solve(lowD, Ad)           # iteration matrices (for the predicted convergence rate only)
+    S_bw = I_n - np.linalg.solve(upD, Ad)
     if name.startswith("gs_"):
         S = solvers.GaussSeidelSmoother(sweep=name[3:])
         Sref = lambda u: cr.gauss_seidel(Ad, u, f, 1, None, name[3:])
+        Smat = {"forward": S_fw, "backward": S_bw, "symmetric": S_bw @ S_fw}[name[3:]]
     elif name == "sequential":
         S = solvers.SequentialSmoother((solvers.GaussSeidelSmoother(iterations=2, sweep="backward"),
                                         solvers.OperatorSmoother(np.eye(n) / (2 * lam_max))))
         Sref = lambda u: (lambda v: v + (f - Ad @ v) / (2 * lam_max))(cr.gauss_seidel(Ad, u, f, 2, None, "backward"))
+        Smat = (I_n - Ad / (2 * lam_max)) @ S_bw @ S_bw
     elif name == "operator":
-        Dinv = scipy.sparse.diags(0.5 / np.diag(Ad))
+        Dinv = scipy.sparse.diags(0.5 / Dg)
         S = solvers.OperatorSmoother(Dinv)
-        Sref = lambda u: u + 0.5 * (f - Ad @ u) / np.diag(Ad)
+        Sref = lambda u: u + 0.5 * (f - Ad @ u) / Dg
+        Smat = I_n - 0.5 * Ad / Dg[:, None]
     else:
         def S(A_, u, f_):                     # user-defined smoother with the documented (A, u, f) in-place interface
-            u += (f_ - A_.dot(u)) / lam_max
-        Sref = lambda u: u + (f - Ad @ u) / lam_max
+            u[:] = cr.gauss_seidel(Ad, u, f_, 1, None, "backward")
+        Sref = lambda u: cr.gauss_seidel(Ad, u, f, 1, None, "backward")
+        Smat = S_bw
     # the smoother objects of pyiga perform the text-book update (one application, in place)
     v0 = np.array(vals, dtype=float) / 4.0
     v = v0.copy()
@@ -589,11 +599,15 @@ def check_twogrid(spec, ctx):
         ctx.sut(S, A, v, f, what="smoother:" + name)
     vr = Sref(v0)
     ctx.close("smoother_textbook", v, vr, rtol=0, atol=1e-11 * max(float(np.max(np.abs(vr))), 1e-300), what=name)
-    # Jacobi-type smoothers only damp for SPD systems if omega*rho(D^-1 A) < 2: checked, else outside the domain
-    if name == "operator":
-        rho = float(np.max(np.abs(np.linalg.eigvals(Ad / np.diag(Ad)[:, None]))))
-        if not 0.5 * rho < 1.9:
-            raise Skip("damped Jacobi not convergent for this matrix")
+    # "converges" is observable only through the iteration limit (1000): configurations whose exact asymptotic two-grid
+    # rate predicts more than ~1/3 of it (e.g. damped Jacobi for high degree) are outside the judged domain
+    steps_eff = 2 if spec["default_args"] else spec["smooth_steps"]
+    Cgc = I_n - Pd @ np.linalg.solve(Pd.T @ Ad @ Pd, Pd.T @ Ad)
+    rate = float(np.max(np.abs(np.linalg.eigvals(Cgc @ np.linalg.matrix_power(Smat, steps_eff)))))
+    tol_eff = 1e-8 if spec["default_args"] else spec["tol"]
+    if rate >= 1.0 or np.log(tol_eff) / np.log(max(rate, 1e-300)) > 300:
+        raise Skip("two-grid rate too slow for the iteration limit")
+    ctx.flag("rate<0.1" if rate < 0.1 else ("rate<0.5" if rate < 0.5 else "rate>=0.5"))
     tol = spec["tol"]
     kw = {} if spec["default_args"] else {"tol": tol, "smooth_steps": spec["smooth_steps"]}
     if spec["default_args"]:
@@ -621,11 +635,10 @@ def check_twogrid(spec, ctx):
     en = float(np.sqrt(max(e @ (Ad @ e), 0.0)))
     cond = lam_max / lam_min
     bound = tol * res0 / np.sqrt(lam_min) + 1e3 * EPS * cond * float(np.sqrt(max(ustar @ (Ad @ ustar), 0.0)))
-    ctx.ratio("twogrid_energy_error", en / bound)
+    ctx.flag("energy_bound_sharp" if en > 0.5 * bound else None)
     ctx.require("twogrid_energy_error", en <= bound, "energy error %.3g exceeds tol*res0/sqrt(lam_min) = %.3g" % (en, bound))
     res = float(np.linalg.norm(f - Ad @ u))
     rb_ = np.sqrt(cond) * tol * res0 + 1e3 * EPS * cond * float(np.linalg.norm(f))
-    ctx.ratio("twogrid_residual", res / rb_)
     ctx.require("twogrid_residual", res <= rb_, "residual %.3g exceeds sqrt(cond)*tol*res0 = %.3g" % (res, rb_))
     m = int(out.split()[-2]) if out.strip().endswith("iterations") else -1
     ctx.flag("u0_" + kind, "storage_" + spec["storage"], "smoother_" + name, "dim%d" % spec["dim"], "tol_%g" % tol,
